@@ -24,8 +24,9 @@ def names(rng, n, prefix, pool=None):
 
 
 class Scenario:
-    def __init__(self, n, c, k, sensors, seed=0, transcendental=False, pool=None, linear=False, branchy=False, share_reading=False, rational=False, assumptions=False, nonsmooth=False, passthrough=False, magnitude=False):
-        self.magnitude = magnitude
+    def __init__(self, n, c, k, sensors, seed=0, transcendental=False, pool=None, linear=False, branchy=False, share_reading=False, rational=False, assumptions=False, nonsmooth=False, passthrough=False, magnitude=False, wrapped=False):
+        self.magnitude = magnitude or wrapped
+        self.wrapped = wrapped
         rng = random.Random(seed * 7919 + n * 131 + c * 17 + k * 5 + sum(sensors))
         self.rng = rng
         self.n, self.c, self.k, self.sensors = n, c, k, list(sensors)
@@ -60,6 +61,10 @@ class Scenario:
                     # quadratic drag / magnitude terms written with Abs, on symbols WITHOUT assumptions (python back-end only: the
                     # C printer refuses the re()/im() sympy leaves in their complex derivative)
                     e = e + coef() * sympy.Abs(a) * a + 2 * sympy.Abs(b)
+                if wrapped and n >= 2 and s is self.state[0]:
+                    # a wrapped quantity (heading, phase) times another state: sympy leaves d Mod(v, 3)/dv UNEVALUATED, and Mod(v, 3)
+                    # itself is the neighbouring Jacobian entry (so CSE abstracts it out of the Derivative)
+                    e = e + sympy.Mod(self.state[1], 3) * self.state[0]
                 if rational:
                     # powers in denominators (printer precedence: mu/r**2 is not mu/r*r), negative and fractional powers
                     e = e + coef() * a / b**2 - coef() / a**3 + coef() * b / (a**2 + 1)
@@ -188,11 +193,26 @@ def real_jacobian(F, X):
 
 
 def jacobian_at(F, X, sub):
-    """real_jacobian evaluated at the substitution `sub` (symbol -> exact number)."""
+    """real_jacobian evaluated at the substitution `sub` (symbol -> exact number).  An entry sympy leaves unevaluated (d Mod(v, c)/dv,
+    d floor(v)/dv) is replaced by an exact central difference with h = 2^-10 (exact for the piecewise-linear functions concerned
+    as long as no breakpoint lies within h of the point)."""
     if not X:
         return sympy.zeros(F.shape[0], 0)
     J, rs = real_jacobian(F, X)
-    return J.subs({rs.get(k, k): v for k, v in sub.items()})
+    back = {rs.get(k, k): v for k, v in sub.items()}
+    out = sympy.zeros(*J.shape)
+    h = sympy.Rational(1, 1024)
+    for i in range(J.shape[0]):
+        for j in range(J.shape[1]):
+            if J[i, j].has(sympy.Derivative):
+                x = X[j]
+                hi = dict(sub)
+                lo = dict(sub)
+                hi[x], lo[x] = sub[x] + h, sub[x] - h
+                out[i, j] = (F[i, 0].subs(hi) - F[i, 0].subs(lo)) / (2 * h)
+            else:
+                out[i, j] = J[i, j].subs(back)
+    return out
 
 
 def build_ekf(sc, config=None, container="set"):
